@@ -631,13 +631,18 @@ class WorkflowDatabaseManager:
         self._put_insert_task_x(self.TABLE_TASK_PREREQUISITES, itask, args)
 
     def put_insert_task_outputs(self, itask):
-        """Reset outputs for a task."""
+        """Add a task_outputs row for a task (for its current flows).
+
+        The task may already have completed outputs (flow merge).
+        """
         self._put_insert_task_x(
             CylcWorkflowDAO.TABLE_TASK_OUTPUTS,
             itask,
             {
                 "flow_nums": serialise_set(itask.flow_nums),
-                "outputs": json.dumps({})
+                "outputs": json.dumps(
+                    itask.state.outputs.get_completed_outputs()
+                )
             }
         )
 
